@@ -1,7 +1,7 @@
 #!/bin/bash
 # debugging helper: run one harness directly.  tools/k1.sh <module::name> [timeout_s] [extra kani args...]
-H=$1; T=${2:-300}; shift; shift
+H=$1; T=${2:-300}; shift; shift; case "$H" in *verif_harness*) HP="$H";; *) HP="verif_harness::$H";; esac
 cd /verif && python3 -c "
 from vlib import kani; import os
 kani.assemble(os.path.join(kani.CACHE,'hdir'))"
-cd /repo && PRIO_VERIF_DIR=/verif/.cache/hdir CARGO_NET_OFFLINE=true timeout $((T+120)) cargo kani --manifest-path /repo/Cargo.toml --target-dir /verif/.cache/kani/dbg -Z stubbing -Z unstable-options --harness-timeout ${T}s --features experimental,test-util,prio_verif --harness "verif_harness::$H" --exact --output-format terse "$@" 2>&1 | grep -v "^warning\|^ *|\|^ *=\|^$\|^ *-->\|^ *[0-9]* |" | tail -40
+cd /repo && PRIO_VERIF_DIR=/verif/.cache/hdir CARGO_NET_OFFLINE=true timeout $((T+120)) cargo kani --manifest-path /repo/Cargo.toml --target-dir /verif/.cache/kani/dbg -Z stubbing -Z unstable-options --harness-timeout ${T}s --features experimental,test-util,prio_verif --harness "$HP" --exact --output-format terse "$@" 2>&1 | grep -v "^warning\|^ *|\|^ *=\|^$\|^ *-->\|^ *[0-9]* |" | tail -40
